@@ -66,6 +66,90 @@ fn prelude(t: &[String]) -> String {
     s
 }
 
+/// One declaration holding type `ty` in position `pos`; `fl` = "" | "pub" | "extern" | "pubextern" (flags x kinds),
+/// `sfx` distinguishes the names of the two declarations of a pair.
+fn cell_body(ty: &[String], pos: &str, fl: &str, sfx: &str) -> String {
+    let t = type_text(ty);
+    let f = match fl {
+        "pub" => "pub ",
+        "extern" => "extern ",
+        "pubextern" => "pub extern ",
+        _ => "",
+    };
+    match pos {
+        "var" => format!("{f}fn f{sfx}()\n{{\n\tvar x: {t};\n}}\n"),
+        "const" => format!("{f}const X{sfx}: {t} = {};\n", init_text(ty)),
+        "param" => format!("{f}fn f{sfx}(x: {t});\n"),
+        "ret" => format!("{f}fn f{sfx}() -> {t};\n"),
+        "smember" => format!("{f}struct Q{sfx} {{ m: {t}, }}\n"),
+        "wmember" => {
+            let bits = if ty.len() == 1 { bits_of(&ty[0]).unwrap_or(64) } else { 64 };
+            format!("{f}word{bits} Q{sfx} {{ m: {t}, }}\n")
+        }
+        "xparam" => format!("{}extern fn f{sfx}(x: {t});\n", if fl == "pub" { "pub " } else { "" }),
+        "xret" => format!("{}extern fn f{sfx}() -> {t};\n", if fl == "pub" { "pub " } else { "" }),
+        "sizeof" => format!("{f}const X{sfx}: usize = |:{t}|;\n"),
+        other => panic!("unknown position {other}"),
+    }
+}
+
+/// The files of a cell (one file, or two for the `import:*` variants of the duplicate family) and, for the pair
+/// family, the 1-based line ranges [from, to] of the first and of the second declaration.
+pub struct Rendered {
+    pub files: Vec<(String, String)>,
+    pub first: (usize, usize),
+    pub second: (usize, usize),
+}
+
+pub fn render_all(case: &Value) -> Rendered {
+    let fam = case["fam"].as_str().unwrap_or("");
+    let variant = case["aux"].get(1).and_then(|v| v.as_str()).unwrap_or("");
+    if fam == "pair" {
+        let ty = strs(&case["ty"]);
+        let pos = case["pos"].as_str().unwrap_or("");
+        let fty = strs(&case["first"]["ty"]);
+        let fpos = case["first"]["pos"].as_str().unwrap_or("");
+        let mut both = fty.clone();
+        both.extend(ty.iter().cloned());
+        let pre = prelude(&both);
+        let a = cell_body(&fty, fpos, "", "1");
+        let b = cell_body(&ty, pos, "", "2");
+        let p = pre.lines().count();
+        let la = a.lines().count();
+        let lb = b.lines().count();
+        return Rendered { files: vec![("case.pn".to_string(), pre + &a + &b)], first: (p + 1, p + la), second: (p + la + 1, p + la + lb) };
+    }
+    if fam == "dup" && variant.starts_with("import:") {
+        let pos = case["pos"].as_str().unwrap_or("");
+        let dup = case["aux"][0].as_bool().unwrap_or(false);
+        let second = if dup { "foo" } else { "bar" };
+        let (pubflag, imported) = match variant {
+            "import:private+local" => ("", true),
+            "import:pub+local" => ("pub ", true),
+            _ => ("pub ", false),
+        };
+        let lib = match pos {
+            "fn" => format!("{pubflag}fn foo(x: i32) -> i32\n{{\n\treturn: x\n}}\n// lib\n"),
+            "const" => format!("{pubflag}const foo: i32 = 200;\n// lib\n"),
+            _ => format!("{pubflag}struct foo {{ x: i32, }}\n// lib\n"),
+        };
+        let imp = if imported { "import \"lib.pn\";\n" } else { "" };
+        let main = match pos {
+            "fn" => format!("{imp}fn {second}(x: i64) -> i64\n{{\n\treturn: x\n}}\n// main\n"),
+            "const" => format!("{imp}const {second}: i32 = 300;\n// main\n"),
+            _ => format!("{imp}struct {second} {{ y: i32, }}\n// main\n"),
+        };
+        // the importing file is given first for functions, last otherwise (both file orders occur)
+        let files = if pos == "fn" {
+            vec![("main.pn".to_string(), main), ("lib.pn".to_string(), lib)]
+        } else {
+            vec![("lib.pn".to_string(), lib), ("main.pn".to_string(), main)]
+        };
+        return Rendered { files, first: (0, 0), second: (0, 0) };
+    }
+    Rendered { files: vec![("case.pn".to_string(), render(case))], first: (0, 0), second: (0, 0) }
+}
+
 pub fn render(case: &Value) -> String {
     let fam = case["fam"].as_str().unwrap_or("");
     let ty = strs(&case["ty"]);
@@ -73,24 +157,10 @@ pub fn render(case: &Value) -> String {
     let aux = &case["aux"][0];
     match fam {
         "type" => {
-            let t = type_text(&ty);
-            let body = match pos {
-                "var" => format!("fn f()\n{{\n\tvar x: {t};\n}}\n"),
-                "const" => format!("const X: {t} = {};\n", init_text(&ty)),
-                "param" => format!("fn f(x: {t});\n"),
-                "ret" => format!("fn f() -> {t};\n"),
-                "smember" => format!("struct Q {{ m: {t}, }}\n"),
-                "wmember" => {
-                    let bits = if ty.len() == 1 { bits_of(&ty[0]).unwrap_or(64) } else { 64 };
-                    format!("word{bits} Q {{ m: {t}, }}\n")
-                }
-                "xparam" => format!("extern fn f(x: {t});\n"),
-                "xret" => format!("extern fn f() -> {t};\n"),
-                "sizeof" => format!("const X: usize = |:{t}|;\n"),
-                other => panic!("unknown position {other}"),
-            };
-            prelude(&ty) + &body
+            let fl = aux.as_str().unwrap_or("");
+            prelude(&ty) + &cell_body(&ty, pos, fl, "")
         }
+        "pair" => render_all(case).files.remove(0).1,
         "word" => {
             let bits = aux.as_u64().unwrap_or(0);
             let mut s = prelude(&ty);
@@ -103,26 +173,43 @@ pub fn render(case: &Value) -> String {
         }
         "len" => {
             let what = aux.as_str().unwrap_or("");
+            let after = case["aux"].get(1).and_then(|v| v.as_str()) == Some("after");
             let decl = match what {
                 "const" => "const n: usize = 3;\n",
                 "consti32" => "const n: i32 = 3;\n",
+                "constexpr" => "const n: usize = 1 + 2;\n",
+                "constchain" => "const n: usize = k;\nconst k: usize = 3;\n",
                 _ => "",
             };
             let body = match (pos, what) {
                 ("var", "var") => "fn f()\n{\n\tvar n: usize = 3;\n\tvar x: [n]u8;\n}\n".to_string(),
                 ("var", "param") => "fn f(n: usize)\n{\n\tvar x: [n]u8;\n}\n".to_string(),
                 ("var", _) => "fn f()\n{\n\tvar x: [n]u8;\n}\n".to_string(),
+                ("nested", "var") => "fn f()\n{\n\tvar n: usize = 3;\n\tvar x: [2][n]u8;\n}\n".to_string(),
+                ("nested", "param") => "fn f(n: usize)\n{\n\tvar x: [2][n]u8;\n}\n".to_string(),
+                ("nested", _) => "fn f()\n{\n\tvar x: [2][n]u8;\n}\n".to_string(),
                 ("smember", _) => "struct Q { m: [n]u8, }\n".to_string(),
+                ("const", _) => "const X: [n]u8 = [1, 2, 3];\n".to_string(),
+                ("sizeof", _) => "const X: usize = |:[n]u8|;\n".to_string(),
                 ("param", "param") => "fn f(n: usize, x: &[n]u8);\n".to_string(),
                 ("param", _) => "fn f(x: &[n]u8);\n".to_string(),
                 other => panic!("unknown length cell {other:?}"),
             };
-            decl.to_string() + &body
+            if after { body + decl } else { decl.to_string() + &body }
         }
         "dup" => {
             let dup = aux.as_bool().unwrap_or(false);
             let variant = case["aux"].get(1).and_then(|v| v.as_str()).unwrap_or("");
             let second = if dup { "foo" } else { "bar" };
+            if variant == "triple" && !dup {
+                // three different names
+                return match pos {
+                    "fn" => "fn foo(x: i32);\nfn bar(x: i64);\nfn baz(x: i8);\n".to_string(),
+                    "const" => "const foo: i32 = 200;\nconst bar: i32 = 300;\nconst baz: i32 = 400;\n".to_string(),
+                    "struct" => "struct foo { x: i32, }\nword16 bar { row: i8, col: i8, }\nstruct baz { z: i32, }\n".to_string(),
+                    _ => "struct Q { foo: [4]u64, bar: usize, baz: bool, }\n".to_string(),
+                };
+            }
             match (pos, variant) {
                 ("fn", "head+head") | ("fn", "") => format!("fn foo(x: i32);\nfn {second}(x: i64);\n"),
                 ("fn", "body+head") => format!("fn foo(x: i32)\n{{\n}}\nfn {second}(x: i64);\n"),
@@ -130,6 +217,38 @@ pub fn render(case: &Value) -> String {
                 ("fn", "body+body") => format!("fn foo(x: i32)\n{{\n}}\nfn {second}(x: i64)\n{{\n}}\n"),
                 ("fn", "extern+head") => format!("extern fn foo(x: i32);\nfn {second}(x: i64);\n"),
                 ("fn", "pub+head") => format!("pub fn foo(x: i32)\n{{\n}}\nfn {second}(x: i64);\n"),
+                ("fn", "triple") => format!("fn foo(x: i32);\nfn {second}(x: i64);\nfn {second}(x: i8);\n"),
+                ("fn", "last") => format!("const A: i32 = 1;\nstruct B {{ x: i32, }}\nfn g(x: i32);\nfn foo(x: i32);\nfn {second}(x: i64);"),
+                ("fn", "first-last") => format!("fn foo(x: i32);\nconst A: i32 = 1;\nstruct B {{ x: i32, }}\nfn g(x: i32);\nfn {second}(x: i64)\n{{\n}}"),
+                ("fn", "extern+extern") => format!("extern fn foo(x: i32);\nextern fn {second}(x: i64);\n"),
+                ("const", "triple") => format!("const foo: i32 = 200;\nconst {second}: i32 = 300;\nconst {second}: i32 = 400;\n"),
+                ("const", "last") => format!("fn g(x: i32);\nstruct B {{ x: i32, }}\nconst A: i32 = 1;\nconst foo: i32 = 200;\nconst {second}: i32 = 300;"),
+                ("const", "first-last") => format!("const foo: i32 = 200;\nfn g(x: i32);\nstruct B {{ x: i32, }}\nconst A: i32 = 1;\nconst {second}: i32 = 300;"),
+                ("const", "extern") => format!("extern const foo: i32 = 200;\npub extern const {second}: i32 = 300;\n"),
+                ("struct", "triple") => format!("struct foo {{ x: i32, }}\nword16 {second} {{ row: i8, col: i8, }}\nstruct {second} {{ z: i32, }}\n"),
+                ("struct", "last") => format!("const A: i32 = 1;\nfn g(x: i32);\nstruct B {{ x: i32, }}\nstruct foo {{ x: i32, }}\nstruct {second} {{ y: i32, }}"),
+                ("struct", "pub+extern") => format!("pub struct foo {{ x: i32, }}\nextern struct {second} {{ y: i32, }}\n"),
+                ("struct", "opaque+struct") => format!("struct foo;\nstruct {second} {{ y: i32, }}\n"),
+                ("member", "triple") => format!("struct Q {{ foo: [4]u64, {second}: usize, {second}: bool, }}\n"),
+                ("member", "last-two-of-four") => format!("struct Q {{ a: i8, b: i8, foo: [4]u64, {second}: usize, }}\n"),
+                // different namespaces (what = "ns"): the first name is `foo`, the second `foo` (dup) or `bar`
+                ("ns", "const+struct") => format!("const foo: i32 = 200;\nstruct {second} {{ y: i32, }}\n"),
+                ("ns", "struct+const") => format!("struct foo {{ y: i32, }}\nconst {second}: i32 = 200;\n"),
+                ("ns", "const+fn") => format!("const foo: i32 = 200;\nfn {second}(x: i64);\n"),
+                ("ns", "fn+const") => format!("fn foo(x: i64);\nconst {second}: i32 = 200;\n"),
+                ("ns", "struct+fn") => format!("struct foo {{ y: i32, }}\nfn {second}(x: i64);\n"),
+                ("ns", "fn+struct") => format!("fn foo(x: i64);\nstruct {second} {{ y: i32, }}\n"),
+                ("ns", "word+const") => format!("word16 foo {{ row: i8, col: i8, }}\nconst {second}: i32 = 200;\n"),
+                ("ns", "const+word") => format!("const foo: i32 = 200;\nword16 {second} {{ row: i8, col: i8, }}\n"),
+                ("ns", "word+fn") => format!("word16 foo {{ row: i8, col: i8, }}\nfn {second}(x: i64)\n{{\n}}\n"),
+                ("ns", "member+const") => format!("struct Q {{ a: i8, {second}: usize, }}\nconst foo: i32 = 200;\n"),
+                ("ns", "const+member") => format!("const foo: i32 = 200;\nstruct Q {{ a: i8, {second}: usize, }}\n"),
+                ("ns", "param+const") => format!("fn f(x: i32, {second}: i32);\nconst foo: i32 = 200;\n"),
+                ("ns", "param+fn") => format!("fn foo(x: i32);\nfn f(x: i32, {second}: i32);\n"),
+                ("ns", "param+struct") => format!("struct foo {{ y: i32, }}\nfn f(x: i32, {second}: i32);\n"),
+                ("ns", "member+fn") => format!("fn foo(x: i32);\nstruct Q {{ a: i8, {second}: usize, }}\n"),
+                ("ns", "member+struct") => format!("struct foo {{ y: i32, }}\nstruct Q {{ a: i8, {second}: usize, }}\n"),
+                ("ns", "member+param") => format!("fn f(x: i32, foo: i32);\nstruct Q {{ a: i8, {second}: usize, }}\n"),
                 ("const", "adjacent") => format!("const foo: i32 = 200;\nconst {second}: i32 = 300;\n"),
                 ("const", "apart") | ("const", "") => format!("const foo: i32 = 200;\nconst other: i32 = 250;\nconst {second}: i32 = 300;\n"),
                 ("const", "pub") => format!("const foo: i32 = 200;\nfn g();\npub const {second}: i32 = 300;\n"),
